@@ -21,7 +21,7 @@ def k_cases(ctx):
     names = ["A", "B"]
     pairs = [(a, b) for a in names for b in names]
     seedings = [None, (True, False), (False, True), (True, True)]
-    for edges in itertools.product([None, "plain", "map"], repeat=len(pairs)):
+    for edges in itertools.product([None, "plain", "map", "arr"], repeat=len(pairs)):
         for sa, sb in itertools.product(seedings, repeat=2):
             if ctx.quick and r.random() < 0.5:
                 continue
@@ -31,7 +31,7 @@ def k_cases(ctx):
                     deps = []
                     for (a, b), e in zip(pairs, edges):
                         if a == n and e:
-                            deps.append(b if e == "plain" else {"map": b})
+                            deps.append(b if e == "plain" else {e: b})
                     nodes.append({"name": n, "kind": "schema", "deps": deps, "attrs": n == "B"})
                 seeds = [[n, s[0], s[1]] for n, s in zip(names, (sa, sb)) if s]
                 out.append(k_graph_case(nodes, seeds, target))
@@ -53,7 +53,7 @@ def k_cases(ctx):
             for _ in range(nd if pool else 0):
                 t = r.choice(pool)
                 x = r.random()
-                deps.append({"map": t} if x < 0.2 else t)
+                deps.append({"map": t} if x < 0.15 else {"arr": t} if x < 0.3 else t)
             node = {"name": name, "kind": kind, "deps": deps}
             if kind not in ("enum", "alias"):
                 node["attrs"] = r.random() < 0.3
@@ -82,6 +82,11 @@ FEATURES = {
     "plain": featgen.wrap({"A": OBJ({"x": {"type": "string"}, "b": S("B")}), "B": OBJ({"n": {"type": "integer"}})}, body="A", resp="A"),
     "map-edge": featgen.wrap({"A": OBJ({"m": {"type": "object", "additionalProperties": S("B")}}), "B": OBJ({"n": {"type": "integer"}}), "C": OBJ({"b": S("B")})}, body="A", resp="C"),
     "map-only-ref": featgen.wrap({"A": OBJ({"m": {"type": "object", "additionalProperties": S("B")}}), "B": OBJ({"n": {"type": "integer"}})}, body="A"),
+    # B is response-only (C), A request-only: the member `l` is an array whose items are the ARRAY ALIAS E
+    "nested-array-edge": featgen.wrap({"A": OBJ({"l": {"type": "array", "items": S("E")}}), "B": OBJ({"n": {"type": "integer"}}), "C": OBJ({"b": S("B")}),
+                                       "E": {"type": "array", "items": S("B")}}, body="A", resp="C"),
+    "required-header-default": featgen.wrap({"A": OBJ({"x": {"type": "string"}})}, resp="A", method="get",
+                                            params=[{"name": "X-Mode", "in": "header", "required": True, "schema": {"type": "string", "default": "fast"}}]),
     "param-clash": featgen.wrap({"A": OBJ({"x": {"type": "string"}})}, resp="A", method="get",
                                 params=[{"name": "id", "in": "query", "schema": {"type": "string"}}, {"name": "id", "in": "header", "schema": {"type": "integer"}}]),
     "sep-int": featgen.wrap({"A": OBJ({"x": {"type": "string"}})}, resp="A", method="get",
